@@ -30,7 +30,7 @@ META = {
     'level_text': ('A virtual clock drives datetime.today()/utcnow() in the S3 cassette and last-modified in the fake bucket.  Recordings are saved at every '
                    'grid instant (quick: every 3 h of 3 days; thorough: every hour of 4 days, across a leap day and month end), with decoys in other '
                    'categories, and EVERY window start <= end on the grid is looked up, plus end=None with "now" at several positions; beyond the grid '
-                   'seeded random second-level instants and windows.  The returned set must equal {r : start <= t_r <= end}. Also: a long-lived reader and a long-lived writer cassette across midnights, random-order listing, and several lazy lookups with different windows in flight on one cassette object. Windows whose end lies before their start, starts in the future, windows with a limit. Ids whose text order is unrelated to creation order; a storage-class threshold.'),
+                   'seeded random second-level instants and windows.  The returned set must equal {r : start <= t_r <= end}. Also: a long-lived reader and a long-lived writer cassette across midnights, random-order listing, and several lazy lookups with different windows in flight on one cassette object. Windows whose end lies before their start, starts in the future, windows with a limit. Ids whose text order is unrelated to creation order; a storage-class threshold. Beyond the grid the category text is tape-chosen (blanks, %, braces).'),
     'level_note': 'Trusted: virtual clock seam, fake S3 last_modified (second resolution, UTC), the inclusive-window reference. Recordings are created and saved at the same instant; process clock is UTC.',
     'rule': ('evaluation = one window lookup; work item = all windows with one start instant (table part) or 30 random windows over randomly timed recordings; '
              'non-trivial = the window contains some but not all recordings of the category; distinct = distinct event-log digest. exhaustive=true refers to the grid.'),
